@@ -99,6 +99,28 @@ class StoreProfile(Profile):
                             run.probes["case_twin_entities"] += 1
         return steps
 
+    BOUNDARY_TARGETS = [k * 4096 + d for k in (1, 2, 3, 16) for d in (-1, 0, 1)] + [8192 * 8 + 1, 512, 513, 1024 + 1]
+
+    def boundary_episode(self, run, cfg, sid):
+        """[write with a measured blob, marker]: the marker is resolved by boundary_followup() once the size is known."""
+        return [{"op": "write", "cfg": cfg, "sid": sid, "how": "set", "data": {"blob": "a" * 300}, "measure": True},
+                {"op": "boundary", "cfg": cfg, "sid": sid}]
+
+    def boundary_followup(self, run, marker):
+        """The concrete second write: the same blob key, sized so that the sidecar's serialised text is exactly a
+        target number of bytes (a multiple of a block size, one less, one more). The serialisation is the writer's own:
+        its overhead is the measured size minus the 300 characters of the first blob."""
+        size = run.scratch.get("measured")
+        if not isinstance(size, int) or size < 300:
+            return None
+        target = run.rng.choice(self.BOUNDARY_TARGETS)
+        n = 300 + target - size
+        if n < 1:
+            return None
+        run.probes["writes_sized_to_a_block_boundary"] += 1
+        return {"op": "write", "cfg": marker["cfg"], "sid": marker["sid"], "how": run.rng.choice(["set", "update"]),
+                "data": {"blob": "a" * n}, "measure": True, "target": target}
+
     # ------------------------------------------------------------------ common ops
     def apply_common(self, run, step):
         op = step["op"]
@@ -112,6 +134,10 @@ class StoreProfile(Profile):
         elif op == "write":
             exists, obs = do_write(run, step["cfg"], step["sid"], step["how"], step["data"])
             self.after_write(run, step, exists, obs)
+            if step.get("measure"):
+                # size of the sidecar as written (input for a follow-up write that lands on a block boundary)
+                mp = run.m.path_of_sid(step["sid"], step["cfg"])
+                run.scratch["measured"] = run.do(X.call("getsize", X.call("data_path", mp))) if mp else -1
         elif op == "restart":
             run.start_epoch()
             run.scratch.pop("finders", None)
